@@ -4,6 +4,9 @@ CONSTANTS Kind = "trace"
           Rule = "legacy"
           N = 1
           FullN = 1
+          NsLegacy = {}
+          NsBft = {}
+          NsSolo = {}
           Cfgs = {}
           Lists = {}
           Paths = {}
